@@ -16,6 +16,19 @@ UUID_RE = r"[A-Fa-f0-9]{8}-[A-Fa-f0-9]{4}-[A-Fa-f0-9]{4}-[A-Fa-f0-9]{4}-[A-Fa-f0
 
 INT_MAX_DIGITS = getattr(sys, "get_int_max_str_digits", lambda: 4300)() or 10**6
 
+
+
+class Refused(ValueError):
+    """the text fits the converter's pattern but has no value (the converter refuses it: the rule does not admit the path)"""
+
+
+def _finite_float(v):
+    f = float(v)
+    if f in (float("inf"), float("-inf")):
+        raise Refused(v)
+    return f
+
+
 CONVS = [
     # (decoded) segment values that contain what a URL would have to escape: a literal per cent sign in front of two hex
     # digits, query / fragment / parameter delimiters
@@ -29,7 +42,9 @@ CONVS = [
     ("int(fixed_digits=3)", int, r"\d{3}", 50, ["123", "007"]),
     # the same option given positionally (the first positional argument of the int converter is fixed_digits)
     ("int(3)", int, r"\d{3}", 50, ["123", "007", "002"]),
-    ("float", float, r"\d+\.\d+", 50, ["1.5", "12.0"]),
+    # a float is digits, a point, digits that float() converts to a finite number (more digits than a float holds give inf,
+    # for which there is no URL): the 17 and more digits, and the many leading zeros, that str() writes with an exponent
+    ("float", _finite_float, r"\d+\.\d+", 50, ["1.5", "12.0", "10000000000000000.0", "0.00001", "123456789012345678901.5"]),
     ("any(a,bc)", None, r"(?:a|bc)", 100, ["a", "bc"]),
     ("any(ab,x1,12)", None, r"(?:ab|x1|12)", 100, ["ab", "x1", "12"]),
     ("uuid", _uuid.UUID, UUID_RE, 100, ["12345678-1234-1234-1234-1234567890ab"]),
@@ -79,6 +94,13 @@ def _conv_args(r, m):
 def admits(r, path, strict):
     """('match', args) | ('slash', None) | None for this exact path (no slash merging).
     ``strict`` is the effective strict_slashes of the rule."""
+    try:
+        return _admits(r, path, strict)
+    except Refused:
+        return None
+
+
+def _admits(r, path, strict):
     rx = ref_regex(r)
     if not r["segs"] and not r["tail"]:
         return ("match", {}) if path == "/" else None
@@ -88,7 +110,8 @@ def admits(r, path, strict):
             return ("match", _conv_args(r, m))
         m = re.fullmatch(rx, path)
         if m:
-            return ("slash", None) if strict else ("match", _conv_args(r, m))
+            args = _conv_args(r, m)  # (a text the converter refuses is not admitted with or without the slash)
+            return ("slash", None) if strict else ("match", args)
         return None
     m = re.fullmatch(rx, path)
     if m:
